@@ -1,4 +1,5 @@
 """C15 — hydroelastic contact polygons (structural clauses)."""
+from . import scopes
 from ..core.report import DOMAIN_D
 from ..rules import buffers, hydro
 
@@ -7,6 +8,7 @@ MODS = {HY + "_tetrahedron_intersection", HY + "_halfplanes", HY + "_forces", HY
 
 
 def run(idx, rep, tier):
+    rep.set_scope(scopes.scope(idx, "C15"))
     rep.explanation = (
         "R-COMPACT: half-planes / polygon points kept under a condition are written at the running counter so that the "
         "returned buf[:n] holds exactly the kept rows (never an unwritten np.empty row). R-GUARDSTORE: capacity checks "
@@ -14,7 +16,7 @@ def run(idx, rep, tier):
         "means no intersection at every stage; the plane is normalised after the zero-normal test and before its offset is "
         "interpreted. R-PLANECROSS: the tetrahedron/plane pre-filter is true iff both tetrahedra have vertices strictly on both sides (16-row truth table). Geometry of the polygon (on the plane, inside both tetrahedra, convex) is not decided.")
     rep.assumptions = DOMAIN_D
-    mods = MODS if tier == "quick" else None
+    mods = MODS
     buffers.r_compact(idx, rep, modules=mods, floor=3 if mods else 8)
     buffers.r_guardstore(idx, rep, modules=mods, floor=1 if mods else 4)
     hydro.r_forcedir(idx, rep)
